@@ -18,7 +18,23 @@ PROPS = {
                 note="Trusted: numpy where/argsort/array/zeros/sum/indexing contracts (DESIGN 3); pyvc encoding (DESIGN 2).",
                 technique="contracts of encode/decode against the integer reference coder + bounded run-time contract checking"),
     "C02": dict(title="Every emitted strand obeys the biochemical constraints", level="other", bounded=["C02"], design="8/C02",
-                explanation="Chain find_vertices -> connect_coding_graph -> encode -> every k-window accepted; constructor clause.",
+                proof=["harness.c02_chain", "harness.c02_chain_table", "dsw.spiderweb.find_vertices", "dsw.spiderweb.connect_coding_graph#t234",
+                       "dsw.spiderweb.encode#normal", "dsw.spiderweb.encode#normal-table", "dsw.operation.number_to_dna#int", "dsw.graphized.obtain_latters",
+                       "dsw.biofilter.LocalBioFilter.__init__#norun-none", "dsw.biofilter.LocalBioFilter.__init__#norun-0", "dsw.biofilter.LocalBioFilter.__init__#norun-1", "dsw.biofilter.LocalBioFilter.__init__#norun-2", "dsw.biofilter.LocalBioFilter.__init__#norun-3", "dsw.biofilter.LocalBioFilter.__init__#run-none", "dsw.biofilter.LocalBioFilter.__init__#run-0", "dsw.biofilter.LocalBioFilter.__init__#run-1", "dsw.biofilter.LocalBioFilter.__init__#run-2", "dsw.biofilter.LocalBioFilter.__init__#run-3",
+                       "lemma.window_shift", "lemma.pv_split", "lemma.pv_bound", "lemma.mod_small", "lemma.ipow_mono", "lemma.pv_ext", "lemma.pv_store_frame"],
+                explanation="PROVED as a composition (client harness over contracts only): for an ARBITRARY user-defined window predicate f (uninterpreted "
+                            "verdict), every observed length k, thresholds 2..4, every message, every retained start vertex, with and without a shuffle "
+                            "table (normal mode): mask = find_vertices(k, f); (desc, acc) = connect_coding_graph(k, mask, t); s = encode(m, acc, start): "
+                            "every window w of kmer(start) + s - including those overlapping the virtual start k-mer - has base-4 value = the vertex "
+                            "reached after w steps (window-shift lemma = C13), that vertex is retained, retained => masked => accepted by f.  The "
+                            "constructor clause is proved for LocalBioFilter.__init__ (raises ValueError exactly when run > k or a motif is longer than "
+                            "k; every accepted configuration is window-decidable) EXCEPT the recorded known finding max_homopolymer_runs == "
+                            "observed_length, which is excluded by an explicit precondition of the contract.  BOUNDED: threshold 1, fast mode, and the "
+                            "whole-sequence verdict of the built-in filter (needs the C12 window lemma).",
+                demoted=["threshold 1 - bounded B2 (C03)", "fast mode - bounded B2", "whole-sequence check of LocalBioFilter on the strand - bounded B2 (C12 lemma)"],
+                claim="Mixed: chain deductive for arbitrary filters / k / t in 2..4 / messages / tables (normal mode); constructor clause deductive modulo "
+                      "one known finding; the rest bounded.",
+                note="Trusted: numpy contracts of the closure; the verdict of a user filter is a function of the k-mer only.",
                 technique="chain of contracts (mask <=> filter, arcs inside mask, strand is a walk, k-mer shift lemma) + bounded chain driver"),
     "C03": dict(title="The coding graph is the largest closed subgraph, or a ValueError", level="other", bounded=["C03"], design="8/C03",
                 proof=["dsw.spiderweb.connect_coding_graph#t234", "dsw.graphized.obtain_latters", "lemma.ssum_zero_iff", "lemma.ssum_mono_eq",
